@@ -123,6 +123,28 @@ theorem C04_groupby_do_is_regrouped_walk (script : Aid → List Action) (arg : N
   apply hp.subset
   exact List.mem_flatten.mpr ⟨g.2, List.mem_map.mpr ⟨g, hg, rfl⟩, ha⟩
 
+/-- `GroupBy.map`: the same state change as `GroupBy.do`, and the result dict has the group keys in group
+    order (first occurrence of each key among the members). -/
+theorem C04_groupby_map_like_do (script : Aid → List Action) (arg : Nat) (ret : Aid → Nat → Nat) (key : Aid → Nat)
+    (w : World) (t : Target) :
+    (groupMap script arg ret key w t).1 = groupDo script arg key w t ∧
+    (groupMap script arg ret key w t).2.map (·.1) = (groupBy key (members w t)).map (·.1) := by
+  refine ⟨groupMap_fst script arg ret key w t, ?_⟩
+  unfold groupMap
+  generalize groupBy key (members w t) = gs
+  have : ∀ (acc : World × List (Nat × List Nat)),
+      (gs.foldl (fun (acc : World × List (Nat × List Nat)) g =>
+        let (w', rs) := walkMap script arg ret acc.1 (g.2.filter (alive acc.1))
+        (w', acc.2 ++ [(g.1, rs)])) acc).2.map (·.1) = acc.2.map (·.1) ++ gs.map (·.1) := by
+    induction gs with
+    | nil => intro acc; simp
+    | cons g gs ih =>
+      intro acc
+      simp only [List.foldl_cons]
+      rw [ih]
+      simp
+  simpa using this (w, [])
+
 /-- The duplicate-freeness assumed above holds at every reachable state (C02): after **any** history —
     including earlier activations with churn and in-place shuffles — one activation of any set invokes
     nobody twice, and every member that survives the call is invoked exactly once. -/
